@@ -19,6 +19,10 @@ from ..topo import REF, KIND_OF_CLASS, Topo
 from . import c10
 
 ID = 'C17'
+# sub-checks added after the seeded-change waves (DESIGN.md sections 5 and 6)
+EXTENSIONS = [
+    'repeated facet in a tag and facet tagged from both sides (multiset of (facet, owner) pairs)',
+]
 LEVEL = 'exploration'
 TECHNIQUE = "small-scope exhaustive enumeration (mesh states x tag sets x all orientation-flag vectors x formats) with a geometric round-trip oracle"
 LEVEL_TEXT = ("For every first- and second-order triangle / quadrilateral / tetrahedron / hexahedron seed (plain, renumbered, cell "
